@@ -25,6 +25,10 @@ def make_forest(root):
     # a module that does not compile, and one that tries to import it (swallowing the SyntaxError) before importing `fo`
     w(root + "/brk.py", "def f(:\n    return 1\n")
     w(root + "/imp2.py", "try:\n    import brk\nexcept SyntaxError:\n    pass\nimport fo\n" + BODY)
+    # a directory that is NOT on sys.path at first: its modules cannot be imported until the program appends it
+    w(root + "/_late/addon.py", BODY)
+    w(root + "/_late/addpkg/__init__.py", BODY)
+    w(root + "/_late/addpkg/sub.py", BODY)
     w(root + "/spyreg.py", "LOG = []\n")
     for k in ("A", "B", "C"):
         w(root + "/spy%s.py" % k, "import spyreg\n\ndef check(fn, *a, **k):\n    spyreg.LOG.append((getattr(fn, '__module__', None), getattr(fn, '__qualname__', None), %r))\n    return fn\n" % k)
@@ -44,10 +48,23 @@ def gen_history(rng):
         else:
             ops.append(["import", rng.choice(MODULES)])
     ops.append(["import", rng.choice(MODULES)])
+    if rng.random() < .25:
+        # a module that cannot be found yet is imported (ImportError), later its directory is appended to sys.path and the import repeated:
+        # it is the FIRST successful import that counts
+        late = rng.choice(["addon", "addpkg", "addpkg.sub"])
+        k = rng.randrange(0, len(ops) + 1)
+        ops.insert(k, ["import_missing", late])
+        if rng.random() < .7:       # (handle numbers follow the order of the install calls)
+            ops.append(["install", rng.choice([["addon"], ["addpkg"], ["addon", "addpkg", "foo"], ["addpkg.sub"]]), rng.choice(["A", "B", None]), nh, True])
+            if rng.random() < .5:
+                ops.append(["import_missing", late])
+        ops += [["addpath"], ["import", late]]
     return ops
 
 
 CATALOGUE = [
+    [["install", ["addon", "addpkg"], "A", 0, True], ["import_missing", "addon"], ["import_missing", "addpkg.sub"], ["addpath"], ["import", "addon"], ["import", "addpkg.sub"], ["import", "foo"]],
+    [["install", ["foo"], "B", 0, True], ["import_missing", "addon"], ["install", ["addon"], "A", 1, True], ["addpath"], ["import", "addon"], ["import_missing", "nosuchmodule"]],
     [["install", ["foo"], "A", 0, True], ["import", "foo"], ["import", "foobar"], ["import", "foo_bar"], ["import", "foo.bar.qux"], ["import", "fo"]],
     [["install", ["foo"], "A", 0, False], ["install", ["foo"], "B", 1, True], ["uninstall", 0, "uninstall"], ["import", "foo.a"]],
     [["install", ["foo"], "A", 0, True], ["install", ["foo"], "A", 1, True], ["import", "foo.a"], ["uninstall", 1, "exit"], ["import", "foo.bar"], ["uninstall", 0, "exit"], ["import", "foo.bar.qux"]],
@@ -67,6 +84,8 @@ def ops_coq(ops):
             out.append("(Install %s %s)" % (vf.coqlist(op[1], vf.coqstr), vf.coqopt(op[2], vf.coqstr)))
         elif op[0] == "uninstall":
             out.append("(Uninstall %d)" % op[1])
+        elif op[0] in ("import_missing", "addpath"):
+            continue          # an import that finds nothing loads nothing; the path change is not the hook's business
         else:
             out.append("(Import %s)" % vf.coqstr(op[1]))
     return "[" + "; ".join(out) + "]"
@@ -80,6 +99,8 @@ def reference(ops):
             live.insert(0, (op[3], op[1], op[2]))
         elif op[0] == "uninstall":
             live = [h for h in live if h[0] != op[1]]
+        elif op[0] in ("import_missing", "addpath"):
+            continue
         else:
             parts = op[1].split(".")
             for i in range(1, len(parts) + 1):
